@@ -194,7 +194,7 @@ class RadialCovariance(CovarianceBase):
     return f"{self.__class__.__name__}_{self.dim}({self.hyperparameters})"
 
   def check_hyperparameters_are_valid(self, new_hyperparameters):
-    new_hyperparameters = numpy.asarray(new_hyperparameters, dtype=float)
+    new_hyperparameters = numpy.array(new_hyperparameters, dtype=float)
     assert len(new_hyperparameters.shape) == 1, f"Hyperparameters should be in 1D array, not {new_hyperparameters}"
     if (
       numpy.any(numpy.isnan(new_hyperparameters))
